@@ -85,14 +85,19 @@ class CallbackMonitor(Monitor):
 
 class C07(UdpCheck):
     pid = "C07"
-    budget = {"quick": 70, "thorough": 900}
+    budget = {"quick": 80, "thorough": 900}
     ncases = {"quick": 500, "thorough": 40000}
+    per_run_wall_s = 400
+    chunk = 1
+    shrink_s = 60
     rule = ("case = swarm config + plan of sends (all retry modes, all boundary lengths, both directions, callback on every "
             "send) with RTT on both sides of the 0.1 s resend interval and of the message timeout, ack-path loss, "
             "reordering, attacker replays and forged 'ack everything' headers, then a healed network; non-trivial = a fault "
             "fired and at least one callback ran; distinct = distinct event-order digest")
 
     def gen(self, rng, tier, i):
+        if (i == 0) if tier == "quick" else (i % 2000 == 0):
+            return self.gen_wrap(rng, tier, i)
         if i % 20 == 11:
             return self.gen_ackedge(rng, tier, i)
         case = gen_traffic(rng, i, tier, retries=(0, 0, 1, -1, -1), cb_p=1.0)
@@ -114,6 +119,22 @@ class C07(UdpCheck):
             plan.append({"op": "forge", "global": True, "t": round(t0 + rng.random() * (t1 - t0), 4), "frm": frm, "to": to,
                          "type": rng.choice([1, 2, 4, 6]), "inner": [rng.choice([4, 6])] * rng.choice([0, 1, 2]),
                          "ack": "all"})
+        return case
+
+    def gen_wrap(self, rng, tier, i):
+        """Callbacks resolved early in a connection that then lives for more than 65535 datagrams: bookkeeping keyed by
+        the 16-bit datagram sequence number must not fire an old callback again when the number is reused."""
+        from checks.c04 import gen_dups
+        case = gen_dups(rng, i, tier, wrap=True)
+        cfg = case["cfg"]
+        cfg["phases"] = [{"t0": 2.0, "t1": 3.3, "cut": True}, {"t0": 5.0, "t1": cfg["duration"], "dup": 0.01, "loss": 0.01}]
+        cfg["t_heal"] = 5.0
+        plan = [op for op in case["plan"] if op["op"] == "connect"]
+        for j in range(12):
+            plan.append({"op": rng.choice(["send", "ssend"]), "c": 0, "t": round(1.2 + j * 0.15, 3), "len": rng.choice([8, 30, 700]),
+                         "kind": 0, "retry": rng.choice([0, 0, -1]), "cb": True, "api": "send"})
+        case["plan"] = plan
+        case["wrap"] = True
         return case
 
     def gen_ackedge(self, rng, tier, i):
@@ -146,6 +167,9 @@ class C07(UdpCheck):
 
     def prepare(self, w, case):
         Attacker(w)
+        if case.get("wrap"):
+            from checks.c04 import install_stream
+            w.after_build.append(lambda w_: install_stream(w_, case))
 
     def nontrivial(self, w, case):
         return bool(sum(w.decider.counts.values())) and bool(w.cbs)
